@@ -28,6 +28,9 @@ def registry():
         system_py.register_executor2(_REG, PROPERTIES)
         model_py.register2(_REG, PROPERTIES)
         model_py.register3(_REG, PROPERTIES)
+        model_py.register4(_REG, PROPERTIES)
+        model_py.register5(_REG, PROPERTIES)
+        model_py.register6(_REG, PROPERTIES)
         from . import properties
         properties.register(_REG, PROPERTIES)
     return _REG
